@@ -19,7 +19,7 @@ for d in dirs:
         rc, o = sh('/venv/bin/python -m pytest -q -p no:cacheprovider dynetx/test 2>&1 | tail -1', cwd='/repo')
         res['tests'] = o.strip()
         for p in props:
-            rc, o = sh('./check %s --tier quick' % p, cwd=V)
+            rc, o = sh('timeout 1800 ./check %s --tier quick' % p, cwd=V)
             viol = [l for l in o.split('\n') if l.startswith('VIOLATION')]
             res[p] = viol[0] if viol else 'ok'
     finally:
